@@ -181,10 +181,15 @@ class Explorer:
         return "%s!%d" % (base, self.fresh)
 
     # -- solver plumbing
-    def _raw_check(self, extra=None):
+    def _raw_check(self, extra=None, quick=False):
         t = time.time()
         r = self.solver.check() if extra is None else self.solver.check(extra)
         used = self.solver
+        if r == z3.unknown and quick:
+            # optional query (model diversification): no fallback portfolio, "unknown" simply means "no extra model"
+            self.stats.solver_s += time.time() - t
+            self.last_model = None
+            return False
         if r == z3.unknown:
             self.stats.fallback += 1
             s2 = z3.Solver()
